@@ -45,6 +45,31 @@ def _scope(self: Any) -> Any:
 
 ResourceManager.resolution_scope = _scope  # type: ignore[method-assign]
 
+# --- cycle-error context (import-time wrap, observation only): when "Circular resource dependency" is raised for a
+# resource, is that resource really being resolved by some other call right now?
+from collections import Counter as _Counter  # noqa: E402
+
+_INFLIGHT: _Counter = _Counter()
+_CYCLE_CTX: list[dict[str, Any]] = []
+_orig_get = ResourceManager._get
+
+
+async def _get(self: Any, resource: Any) -> Any:
+    name = resource.name
+    others = _INFLIGHT[name]
+    _INFLIGHT[name] += 1
+    try:
+        return await _orig_get(self, resource)
+    except ValueError as x:
+        if "Circular resource dependency" in str(x) and not any(c["error"] is x for c in _CYCLE_CTX):
+            _CYCLE_CTX.append({"error": x, "name": name, "in_flight_elsewhere": others > 0})
+        raise
+    finally:
+        _INFLIGHT[name] -= 1
+
+
+ResourceManager._get = _get  # type: ignore[method-assign]
+
 
 class Obj:
     n = 0
@@ -107,6 +132,8 @@ def execute(ex: Execution, graph: dict[str, Any], inject: dict[str, list[str]], 
     (one step, num_workers=2, two events)."""
     Obj.n = 0
     _SCOPES.update({"open": [], "log": [], "seq": 0, "last_by_task": {}})
+    _INFLIGHT.clear()
+    _CYCLE_CTX.clear()
     with EngineExec(ex, RunConfig()) as e:
         h = e.h
         calls: dict[str, int] = {}
@@ -193,7 +220,10 @@ def execute(ex: Execution, graph: dict[str, Any], inject: dict[str, list[str]], 
                 v.append(("genuine_cycle_not_reported", w, f"cyclic graph {graph} ended with {out} (stuck={e.stuck})"))
         else:
             if is_cycle_err:
-                v.append(("false_cycle_error", {**w, "resolutions_overlapped": any_overlap}, f"acyclic graph {graph}: {out[1]}"))
+                ctx = next((c for c in _CYCLE_CTX if c["error"] is out[1]), None) or (_CYCLE_CTX[-1] if _CYCLE_CTX else {})
+                v.append(("false_cycle_error", {**w, "resolutions_overlapped": any_overlap,
+                                                "named_resource_being_resolved_elsewhere": bool(ctx.get("in_flight_elsewhere"))},
+                          f"acyclic graph {graph}: {out[1]} (resource {ctx.get('name')} in flight elsewhere: {ctx.get('in_flight_elsewhere')})"))
             elif out[0] != "result":
                 v.append(("run_failed", w, f"acyclic graph {graph} ended with {out} stuck={e.stuck}"))
             else:
@@ -287,6 +317,11 @@ THREE: dict[str, tuple[dict[str, Any], dict[str, list[str]]]] = {
     "three_fifo_async_n": ({"x": {"async": True, "cache": True}, "y": {"async": True, "cache": True},
                             "n": {"async": True, "cache": False}},
                            {"s1": ["x"], "s2": ["y", "n"], "s3": ["n"]}),
+    # two different async factories whose resolutions overlap and finish first-in-first-out, then the first resource again
+    "three_nonlifo": ({"x": {"async": True, "cache": True}, "y": {"async": True, "cache": True}},
+                      {"s1": ["x"], "s2": ["y"], "s3": ["x"]}),
+    "three_nonlifo_noncached": ({"x": {"async": True, "cache": False}, "y": {"async": True, "cache": False}},
+                                {"s1": ["x"], "s2": ["y"], "s3": ["x", "y"]}),
     "three_sync_first": ({"x": {"async": True, "cache": False}, "n": {"async": False, "cache": False}},
                          {"s1": ["n", "x"], "s2": ["n"], "s3": ["n"]}),
 }
